@@ -216,6 +216,50 @@ def nonconvex_surface(rng):
     return np.array(V, float), F, name + "_flaps"
 
 
+# ----------------------------------------------------------------------------- needles and slivers (valid, area > 0, tiny corner angles)
+def needle_surface(rng):
+    """Triangle surfaces with corner angles between 1e-3 and 1e-9 rad: a single needle (tiny apex angle), a cap (two tiny angles, one
+    close to pi), an open fan of needles around a common apex, the closed surface of a sliver tetrahedron (chi = 2).  Returned in general
+    position (random rotation + translation of a few units); all points distinct, every triangle has positive area."""
+    th = 10.0 ** rng.uniform(-9, -3)
+    k = rng.randrange(4)
+    L = rng.uniform(0.5, 2.0)
+    if k == 0:
+        r = rng.uniform(0.6, 1.4)
+        V = [[0, 0, 0], [L, 0, 0], [r * L * math.cos(th), r * L * math.sin(th), 0]]
+        F = [[0, 1, 2]]
+        name = "needle"
+    elif k == 1:
+        t = rng.uniform(0.25, 0.75)
+        V = [[0, 0, 0], [L, 0, 0], [t * L, th * L * t * (1 - t), 0]]
+        F = [[0, 1, 2]]
+        name = "cap"
+    elif k == 2:
+        n = rng.randint(2, 6)
+        V = [[0, 0, 0]]
+        ang = 0.0
+        for i in range(n + 1):
+            r = rng.uniform(0.7, 1.3) * L
+            V.append([r * math.cos(ang), r * math.sin(ang), rng.uniform(-1, 1) * th * 0.3])
+            ang += th * rng.uniform(0.5, 1.5)
+        F = [[0, 1 + i, 2 + i] for i in range(n)]
+        name = "needle_fan%d" % n
+    else:
+        h = th * L
+        V = [[0, 0, 0], [L, 0, 0], [rng.uniform(0.3, 0.7) * L, h, 0], [rng.uniform(0.3, 0.7) * L, h * rng.uniform(0.2, 0.8), h * rng.uniform(0.5, 1.5)]]
+        F = [[0, 2, 1], [0, 1, 3], [1, 2, 3], [2, 0, 3]]
+        name = "sliver_tetra_surface"
+    V = np.array(V, float)
+    if rng.random() < 0.85:
+        V, _, _ = surfaces.rigid(V, rng, scale=rng.choice([1.0, 1.0, 0.1, 10.0]))
+        name += "~rigid"
+    if rng.random() < 0.5:
+        F = surfaces.flip(F)
+    V, F, _ = surfaces.renumber(V, F, rng)
+    F = surfaces.rotate_faces(F, rng)
+    return V, [list(map(int, f)) for f in F], name, th
+
+
 def _draw(rng):
     k = rng.randrange(8)
     n = rng.choice([3, 4, 5, 5, 6, 6, 7, 8, 9, 11])
